@@ -151,6 +151,11 @@ package influxql
 //@   ensures [C07] @obj_string (len(m) == 1 && local(k) == "string" && istype(local(v), string)) ==> (istype(result, StringValue) && result.(StringValue) == local(v).(string))
 //@   ensures [C07] @obj_int (len(m) == 1 && (local(k) == "int" || local(k) == "integer") && istype(local(v), int64)) ==> (istype(result, IntegerValue) && result.(IntegerValue) == local(v).(int64))
 //@   ensures [C07] @obj_float (len(m) == 1 && (local(k) == "float" || local(k) == "number") && istype(local(v), float64)) ==> (istype(result, NumberValue) && result.(NumberValue) == local(v).(float64))
+// ... and conversely, a value of a kind comes only from an entry value of the matching Go type, unchanged
+// (a kind added later cannot bind something the entry does not say)
+//@   ensures [C07] @from_bool (len(m) == 1 && istype(result, BooleanValue)) ==> (istype(local(v), bool) && result.(BooleanValue) == local(v).(bool))
+//@   ensures [C07] @from_string (len(m) == 1 && (istype(result, StringValue) || istype(result, Identifier) || istype(result, RegexValue))) ==> istype(local(v), string)
+//@   ensures [C07] @from_int (len(m) == 1 && istype(result, IntegerValue)) ==> (istype(local(v), int64) && result.(IntegerValue) == local(v).(int64))
 //@   ensures [C07] @obj_duration (len(m) == 1 && local(k) == "duration" && istype(local(v), string)) ==> (istype(result, DurationValue) && result.(DurationValue) == local(v).(string))
 
 //@ func (*Parser).SetParams
